@@ -1,6 +1,7 @@
 package checks
 
 import (
+	"strconv"
 	"strings"
 
 	"verif/harness/core"
@@ -64,6 +65,36 @@ func conjunctionOnly(ecoName, rs string) bool {
 // evalC20 ops: equal-pair [range, a, b]; convex [range, a, b, c].
 func evalC20(c *core.Ctx, e *eco.Eco, op string, args []string) []core.Violation {
 	if e == nil || len(args) < 3 {
+		return nil
+	}
+	if op == "used-range" && len(args) >= 7 {
+		// replay: ask the two versions, then N distinct others, then the two again - on one range object
+		rg, err, pn := e.SafeNewRange(args[0])
+		if !accepted(isNilRng(rg), err, pn) {
+			return nil
+		}
+		tpl := volTemplate{pre: args[3], post: args[4], word: args[5] == "true"}
+		n, _ := strconv.Atoi(args[6])
+		var vs []eco.Ver
+		var first []bool
+		for _, sx := range args[1:3] {
+			v, err, pn := e.SafeNewVersion(sx)
+			if !accepted(isNilVer(v), err, pn) {
+				return nil
+			}
+			g, _ := eco.SafeContains(rg, v)
+			vs, first = append(vs, v), append(first, g)
+		}
+		for x := 0; x < n; x++ {
+			if v, err, pn := e.SafeNewVersion(tpl.at(x)); pn == nil && err == nil && v != nil {
+				eco.SafeContains(rg, v)
+			}
+		}
+		for x, v := range vs {
+			if g, _ := eco.SafeContains(rg, v); g != first[x] {
+				return []core.Violation{{Eco: e.Name, Op: op, Args: args, Rule: "membership-depends-on-earlier-questions", Got: b2s(g), Want: b2s(first[x])}}
+			}
+		}
 		return nil
 	}
 	rs := args[0]
@@ -222,6 +253,17 @@ func runC20(c *core.Ctx, ck *Check) {
 				continue
 			}
 			w.Count("equal_classes_with_several_spellings", int64(n-(cls[n-1]+1)))
+			// distinct extra versions for (c), parsed once per pool
+			var volVers []eco.Ver
+			var volTpl volTemplate
+			if tp := volTemplates(e, nil, p.Strs, r, 1); len(tp) > 0 {
+				volTpl = tp[0]
+				for x := 0; x < c.Scale(1500, 20000); x++ {
+					if v, err, pn := e.SafeNewVersion(volTpl.at(x)); pn == nil && err == nil && v != nil {
+						volVers = append(volVers, v)
+					}
+				}
+			}
 			reported := map[string]int{}
 			for k := 0; k < nRanges+len(fixedRanges); k++ {
 				var rs string
@@ -290,6 +332,30 @@ func runC20(c *core.Ctx, ck *Check) {
 								reported["cv"]++
 								w.Report(v)
 							}
+						}
+					}
+				}
+				// (c) the same range OBJECT after it answered many other questions: membership must still depend on
+				// nothing but the order (equal versions agree, and every answer is the one given before)
+				if k%12 == 5 && len(volVers) > 0 {
+					for _, v := range volVers {
+						eco.SafeContains(rg, v)
+					}
+					w.Count("used_range_objects", 1)
+					w.Count("questions_to_used_range_objects", int64(len(volVers)))
+					for a := 0; a < n; a++ {
+						g, pn := eco.SafeContains(rg, p.Vers[idx[a]])
+						g = g && pn == nil
+						w.Count("evaluations", 1)
+						if g != in[a] && reported["used"] < 3 {
+							reported["used"]++
+							partner := a - 1
+							if a == 0 {
+								partner = 1
+							}
+							w.Report(core.Violation{Eco: e.Name, Op: "used-range", Args: []string{rs, p.Strs[idx[a]], p.Strs[idx[partner]], volTpl.pre, volTpl.post, b2s(volTpl.word), itoa(len(volVers))},
+								Rule: "membership-depends-on-earlier-questions", Got: b2s(g), Want: b2s(in[a]),
+								Detail: "the range object gave another answer for the same version after it had been asked about " + itoa(len(volVers)) + " other versions"})
 						}
 					}
 				}
